@@ -1315,3 +1315,298 @@ Proof.
   exists (SFor (TName 1) (IPlain (ESeq KList [EConst (AInt 1); EConst (AInt 0)])) [SIf (EName 1) [SExpr (ECall 4 [EName 1])] []]).
   eexists. exists (mkSt [] None []). split; [reflexivity|]. split; vm_compute; discriminate.
 Qed.
+
+(* =========================================================================================== *)
+(* fixes.simplify_assign_immediate_return.  The variables of the function are dead once it returns:
+   two runs are alike if they return the same value with the same trace (the stores may differ), or
+   do not return and end in the same state. *)
+
+Definition ret_rel (r1 r2 : option (outcome * state)) : Prop :=
+  match r1, r2 with
+  | Some (o1, q1), Some (o2, q2) =>
+      match o1 with
+      | ORet v => o2 = ORet v /\ st_trace q1 = st_trace q2
+      | _ => o1 = o2 /\ q1 = q2
+      end
+  | None, None => True
+  | _, _ => False
+  end.
+
+Lemma ret_rel_refl : forall r, ret_rel r r.
+Proof. intros [[[] q]|]; cbn; auto. Qed.
+
+Section StmtInd.
+  Variable P : stmt -> Prop.
+  Hypothesis HAssign : forall x e, P (SAssign x e).
+  Hypothesis HSetItem : forall x k v, P (SSetItem x k v).
+  Hypothesis HMeth : forall x m args, P (SMeth x m args).
+  Hypothesis HExpr : forall e, P (SExpr e).
+  Hypothesis HRet : forall e, P (SRet e).
+  Hypothesis HPass : P SPass.
+  Hypothesis HCont : P SCont.
+  Hypothesis HBreak : P SBreak.
+  Hypothesis HIf : forall c b1 b2, Forall P b1 -> Forall P b2 -> P (SIf c b1 b2).
+  Hypothesis HFor : forall t it body, Forall P body -> P (SFor t it body).
+
+  Fixpoint stmt_ind' (s : stmt) : P s :=
+    let fl := fix fl (l : list stmt) : Forall P l :=
+      match l with
+      | [] => Forall_nil P
+      | x :: tl => Forall_cons x (stmt_ind' x) (fl tl)
+      end in
+    match s with
+    | SAssign x e => HAssign x e
+    | SSetItem x k v => HSetItem x k v
+    | SMeth x m args => HMeth x m args
+    | SExpr e => HExpr e
+    | SRet e => HRet e
+    | SPass => HPass
+    | SCont => HCont
+    | SBreak => HBreak
+    | SIf c b1 b2 => HIf c b1 b2 (fl b1) (fl b2)
+    | SFor t it body => HFor t it body (fl body)
+    end.
+End StmtInd.
+
+Section ImmRet.
+  Variables (W : worlds) (ok : nat -> bool).
+
+  Definition ir_stmt (s : stmt) : Prop := forall q, ret_rel (exec_stmt W s q) (exec_stmt W (immret_s ok s) q).
+
+  Lemma immret_b_cons : forall s1 tl,
+    immret_b ok (s1 :: tl) =
+    match s1, tl with
+    | SAssign x e, SRet (EName y) :: tl' =>
+        if Nat.eqb x y && ok x then SRet e :: immret_b ok tl' else immret_s ok s1 :: immret_b ok tl
+    | _, _ => immret_s ok s1 :: immret_b ok tl
+    end.
+  Proof. reflexivity. Qed.
+
+  Lemma ir_generic : forall s1 tl, ir_stmt s1 ->
+    (forall q, ret_rel (exec_block W tl q) (exec_block W (immret_b ok tl) q)) ->
+    forall q, ret_rel (exec_block W (s1 :: tl) q) (exec_block W (immret_s ok s1 :: immret_b ok tl) q).
+  Proof.
+    intros s1 tl H1 Htl q. rewrite !exec_block_cons. specialize (H1 q).
+    destruct (exec_stmt W s1 q) as [[o1 q1]|], (exec_stmt W (immret_s ok s1) q) as [[o2 q2]|]; cbn in H1; try contradiction; [|exact I].
+    destruct o1; destruct H1 as [Ho H1]; subst o2; try (subst q2); cbn; auto.
+  Qed.
+
+  Lemma ir_block_n : forall n b, (length b <= n)%nat -> Forall ir_stmt b ->
+    forall q, ret_rel (exec_block W b q) (exec_block W (immret_b ok b) q).
+  Proof.
+    induction n as [|n IH]; intros b Hn Hb q.
+    - destruct b; [apply ret_rel_refl | cbn in Hn; lia].
+    - destruct b as [|s1 tl]; [apply ret_rel_refl|]. cbn in Hn.
+      inversion Hb as [|? ? H1 Htl]; subst.
+      assert (Hgen : ret_rel (exec_block W (s1 :: tl) q) (exec_block W (immret_s ok s1 :: immret_b ok tl) q)).
+      { apply ir_generic; [assumption|]. intros q'. apply IH; [lia | assumption]. }
+      rewrite immret_b_cons. destruct s1; try exact Hgen. destruct tl as [|s2 tl']; [exact Hgen|].
+      destruct s2; try exact Hgen. destruct e0; try exact Hgen.
+      destruct (Nat.eqb x x0 && ok x) eqn:Hc; [|exact Hgen].
+      apply andb_true_iff in Hc as [Hx _]. apply Nat.eqb_eq in Hx. subst x0.
+      rewrite !exec_block_cons. cbn [exec_stmt]. unfold eval_in. cbn [st_store st_trace eval].
+      destruct (eval (W (st_store q)) e (sget (st_store q)) (st_trace q)) as [[v tr1]|]; [|exact I].
+      rewrite exec_block_cons. cbn [exec_stmt]. unfold eval_in. cbn [st_store st_trace eval].
+      rewrite sget_sset_same. cbn. split; reflexivity.
+  Qed.
+
+  Lemma ir_block : forall b, Forall ir_stmt b ->
+    forall q, ret_rel (exec_block W b q) (exec_block W (immret_b ok b) q).
+  Proof. intros b. apply (ir_block_n (length b)). lia. Qed.
+
+  Lemma ir_all : forall s, ir_stmt s.
+  Proof.
+    induction s using stmt_ind'; intros q; try apply ret_rel_refl.
+    - (* if *)
+      change (immret_s ok (SIf c b1 b2)) with (SIf c (immret_b ok b1) (immret_b ok b2)). rewrite !exec_SIf.
+      destruct (eval_in W c q) as [[cv tr1]|]; [|exact I]. cbn zeta.
+      destruct (truthy cv); apply ir_block; assumption.
+    - (* for *)
+      change (immret_s ok (SFor t it body)) with (SFor t it (immret_b ok body)). rewrite !exec_SFor.
+      destruct (eval_in W (isrc_expr it) q) as [[itv tr1]|]; [|exact I].
+      destruct (src_items it itv) as [items|]; [|exact I].
+      generalize (mkSt (st_store q) (fold_left rebind_own (tgt_names t) (read_own (st_own q) [isrc_expr it])) tr1).
+      induction items as [|v items IHi]; intros q0; [apply ret_rel_refl|].
+      rewrite !exec_loop_cons. destruct (accept W it v q0) as [[[] q1]|]; [| apply IHi | exact I].
+      destruct (sbind t v (st_store q1)) as [s'|]; [|exact I].
+      pose proof (ir_block body H (mkSt s' (fold_left rebind_own (tgt_names t) (st_own q1)) (st_trace q1))) as Hr.
+      destruct (exec_block W body _) as [[o1 q2]|], (exec_block W (immret_b ok body) _) as [[o2 q3]|];
+        cbn in Hr; try contradiction; [|exact I].
+      destruct o1; destruct Hr as [Ho Hr]; subst o2; try (subst q3); cbn; auto; try apply IHi.
+  Qed.
+
+  Theorem immret_sound : forall b q, ret_rel (exec_block W b q) (exec_block W (immret_b ok b) q).
+  Proof. intros b q. apply ir_block. apply Forall_forall. intros s _. apply ir_all. Qed.
+End ImmRet.
+
+Corollary rw_immret_sound : forall W body q, ret_rel (exec_block W body q) (exec_block W (rw_immret body) q).
+Proof. intros. apply immret_sound. Qed.
+
+Example rw_immret_example :
+  rw_immret [SIf (ECall 4 []) [SAssign 1 (ECall 0 []); SRet (EName 1)] [SAssign 2 (ECall 0 []); SExpr (EName 2); SRet (EName 2)]]
+  = [SIf (ECall 4 []) [SRet (ECall 0 [])] [SAssign 2 (ECall 0 []); SExpr (EName 2); SRet (EName 2)]].
+Proof. reflexivity. Qed.
+
+(* =========================================================================================== *)
+(* fixes.simplify_redundant_lambda, on one application *)
+
+Lemma bind_params_other : forall xs vs en en1 rest y,
+  bind_params xs vs en = Some (en1, rest) -> ~ List.In y xs -> en1 y = en y.
+Proof.
+  induction xs as [|x xs IH]; intros vs en en1 rest y H Hy.
+  - cbn in H. injection H as <- _. reflexivity.
+  - destruct vs as [|v vs]; [discriminate|]. cbn in H. rewrite (IH _ _ _ _ _ H).
+    + unfold upd. destruct (Nat.eqb y x) eqn:E; [|reflexivity]. apply Nat.eqb_eq in E. subst. exfalso. apply Hy. left. reflexivity.
+    + intros Hin. apply Hy. right. exact Hin.
+Qed.
+
+Lemma bind_params_names : forall w xs vs en en1 rest tr,
+  bind_params xs vs en = Some (en1, rest) -> NoDup xs ->
+  forall en2, (forall y, List.In y xs -> en2 y = en1 y) ->
+  exists pre, vs = pre ++ rest /\ eval_elts (eval w) en2 (map EName xs) tr = Some (pre, tr).
+Proof.
+  intros w. induction xs as [|x xs IH]; intros vs en en1 rest tr H Hnd en2 Hag.
+  - cbn in H. injection H as _ <-. exists []. split; reflexivity.
+  - destruct vs as [|v vs]; [discriminate|]. cbn in H. inversion Hnd as [|? ? Hnin Hnd']; subst.
+    destruct (IH _ _ _ _ tr H Hnd' en2) as [pre [-> He]].
+    { intros y Hy. apply Hag. right. exact Hy. }
+    exists (v :: pre). split; [reflexivity|]. cbn [map eval_elts eval].
+    rewrite (Hag x (or_introl eq_refl)). rewrite (bind_params_other _ _ _ _ _ _ H Hnin).
+    unfold upd. rewrite (Nat.eqb_refl x). rewrite He. reflexivity.
+Qed.
+
+Lemma is_forward_spec : forall xs va args, is_forward xs va args = true ->
+  args = map EName xs ++ match va with Some a => [EStar (EName a)] | None => [] end.
+Proof.
+  induction xs as [|x xs IH]; intros va args H.
+  - cbn in H. destruct args as [|a [|]]; try discriminate.
+    + destruct va; [discriminate | reflexivity].
+    + destruct a; try discriminate. destruct a; try discriminate. destruct va as [a|]; [|discriminate].
+      apply Nat.eqb_eq in H. subst. reflexivity.
+    + destruct a; try discriminate. destruct a; discriminate.
+  - cbn in H. destruct args as [|a args]; [discriminate|]. destruct a; try discriminate.
+    apply andb_true_iff in H as [Hx H]. apply Nat.eqb_eq in Hx. subst. cbn. f_equal. apply IH. exact H.
+Qed.
+
+Lemma split_kws_plain : forall l, split_kws (map (fun x : val => (None, x)) l) = (l, []).
+Proof. induction l as [|a l IH]; [reflexivity|]. cbn. rewrite IH. reflexivity. Qed.
+
+(* evaluating the forwarded argument list inside the lambda gives back the arguments of the call *)
+Lemma forward_eval : forall w l en args tr en1 rest,
+  NoDup (l_params l ++ match l_vararg l with Some a => [a] | None => [] end) ->
+  bind_params (l_params l) args en = Some (en1, rest) ->
+  match l_vararg l with Some _ => True | None => rest = [] end ->
+  eval_elts (eval w)
+    (match l_vararg l with Some a => upd en1 a (VTuple rest) | None => en1 end)
+    (map EName (l_params l) ++ match l_vararg l with Some a => [EStar (EName a)] | None => [] end) tr
+  = Some (args, tr).
+Proof.
+  intros w l en args tr en1 rest Hnd Hb Hr.
+  assert (Hnd1 : NoDup (l_params l)).
+  { destruct (l_vararg l) as [a|].
+    - apply NoDup_remove_1 in Hnd. rewrite app_nil_r in Hnd. exact Hnd.
+    - rewrite app_nil_r in Hnd. exact Hnd. }
+  destruct (l_vararg l) as [a|].
+  - assert (Ha : ~ List.In a (l_params l)).
+    { intros Hin. apply NoDup_remove_2 in Hnd. rewrite app_nil_r in Hnd. exact (Hnd Hin). }
+    destruct (bind_params_names w _ _ _ _ _ tr Hb Hnd1 (upd en1 a (VTuple rest))) as [pre [-> He]].
+    { intros y Hy. unfold upd. destruct (Nat.eqb y a) eqn:E; [|reflexivity]. apply Nat.eqb_eq in E. subst. contradiction. }
+    rewrite eval_elts_app, He. cbn [eval_elts eval]. unfold upd. rewrite (Nat.eqb_refl a). cbn. rewrite app_nil_r. reflexivity.
+  - subst rest. destruct (bind_params_names w _ _ _ _ _ tr Hb Hnd1 en1) as [pre [-> He]]; [reflexivity|].
+    rewrite !app_nil_r. exact He.
+Qed.
+
+Theorem lambda_sound : forall w l r en args tr res,
+  NoDup (l_params l ++ match l_vararg l with Some a => [a] | None => [] end) ->
+  rw_lambda l = Some r -> apply_lam w l en args tr = Some res -> apply_repl w r args tr = Some res.
+Proof.
+  intros w l r en args tr res Hnd Hrw Ha. unfold rw_lambda, rw_lambda_gen in Hrw.
+  destruct (true && negb (Nat.eqb (l_ndefaults l) 0)); [discriminate|].
+  unfold apply_lam in Ha.
+  destruct (lam_literal l) as [r0|] eqn:Hlit.
+  - injection Hrw as <-. unfold lam_literal in Hlit.
+    destruct (l_params l) as [|x [|]]; try discriminate; destruct (l_vararg l); try discriminate.
+    + (* lambda: [] / () / {} *)
+      cbn in Ha. destruct args; [|discriminate].
+      destruct (l_body l); try discriminate.
+      * destruct k; try discriminate; destruct elts; try discriminate; injection Hlit as <-;
+          cbn in Ha; injection Ha as <-; reflexivity.
+      * destruct items; try discriminate. injection Hlit as <-. cbn in Ha. injection Ha as <-. reflexivity.
+    + (* lambda x: [*x] *)
+      destruct (l_body l); try discriminate.
+      destruct elts as [|e0 [|]]; try discriminate;
+        try (exfalso; repeat match type of Hlit with
+                             | context [match ?t with _ => _ end] => destruct t; try discriminate
+                             end; fail).
+      destruct e0; try discriminate. destruct e0; try discriminate.
+      destruct (Nat.eqb x x0) eqn:Ex; [|discriminate]. apply Nat.eqb_eq in Ex. subst x0. injection Hlit as <-.
+      destruct args as [|a [|]]; try discriminate. cbn [bind_params] in Ha.
+      rewrite eval_ESeq in Ha. cbn [eval_elts eval] in Ha. unfold upd in Ha. rewrite (Nat.eqb_refl x) in Ha.
+      cbn [apply_repl]. destruct (items_of a) as [its|] eqn:Hi; [|discriminate]. rewrite app_nil_r in Ha.
+      destruct k; cbn [seq_bi bapply]; rewrite Hi; cbn [option_map].
+      * injection Ha as <-. reflexivity.
+      * injection Ha as <-. reflexivity.
+      * destruct (mkset its); [|discriminate]. injection Ha as <-. reflexivity.
+  - unfold lam_forward in Hrw.
+    destruct (bind_params (l_params l) args en) as [[en1 rest]|] eqn:Hb; [|discriminate].
+    assert (Hrest : match l_vararg l with Some _ => True | None => rest = [] end).
+    { destruct (l_vararg l); [exact I|]. destruct rest; [reflexivity | discriminate]. }
+    pose proof (forward_eval w l en args tr en1 rest Hnd Hb Hrest) as Hfw.
+    assert (Henv : match l_vararg l, rest with
+                   | Some a, _ => eval w (l_body l) (upd en1 a (VTuple rest)) tr
+                   | None, [] => eval w (l_body l) en1 tr
+                   | None, _ :: _ => None
+                   end = eval w (l_body l) (match l_vararg l with Some a => upd en1 a (VTuple rest) | None => en1 end) tr).
+    { destruct (l_vararg l); [reflexivity|]. subst rest. reflexivity. }
+    rewrite Henv in Ha. clear Henv.
+    destruct (l_body l); try discriminate.
+    + destruct (is_forward (l_params l) (l_vararg l) args0) eqn:Hf; [|discriminate]. injection Hrw as <-.
+      rewrite (is_forward_spec _ _ _ Hf) in Ha. cbn [eval] in Ha. rewrite Hfw in Ha. exact Ha.
+    + destruct (is_forward (l_params l) (l_vararg l) args0) eqn:Hf; [|discriminate]. injection Hrw as <-.
+      rewrite (is_forward_spec _ _ _ Hf) in Ha. rewrite eval_EBi in Ha.
+      rewrite (elts_as_args _ _ _ _ _ _ Hfw) in Ha. rewrite split_kws_plain in Ha. cbn [fst snd] in Ha.
+      cbn [apply_repl]. exact Ha.
+Qed.
+
+(* before the repair: a default is dropped *)
+Theorem lambda_old_refuted_defaults :
+  exists l r, rw_lambda_old l = Some r /\ rw_lambda l = None /\ l_ndefaults l = 1%nat.
+Proof. exists (mkLam [1%nat] 1 None (ECall 4 [EName 1])), (LFun 4). repeat split. Qed.
+
+(* =========================================================================================== *)
+(* fixes.fix_raise_missing_from *)
+
+Theorem raise_from_partial : forall caught x,
+  x_value (raise_from caught x) = x_value (raise_plain caught x) /\
+  x_context (raise_from caught x) = x_context (raise_plain caught x).
+Proof. intros. split; reflexivity. Qed.
+
+Theorem raise_from_refuted : forall caught x, raise_from caught x <> raise_plain caught x.
+Proof. intros caught x H. discriminate H. Qed.
+
+(* =========================================================================================== *)
+(* fixes.implicit_defaultdict: one loop step *)
+
+Lemma dict_get_set_same : forall d k v, dict_get (dict_set d k v) k = Some v.
+Proof.
+  induction d as [|[k' v'] d IH]; intros k v; cbn.
+  - rewrite key_eqb_refl. reflexivity.
+  - destruct (key_eqb k' k) eqn:E; cbn; rewrite E; [reflexivity | apply IH].
+Qed.
+
+(* the items of the mapping after the step are the same *)
+Theorem defaultdict_step_items : forall lk d k v, plain_step lk d k v = dd_step lk d k v.
+Proof.
+  intros lk d k v. unfold plain_step, dd_step. destruct (hashable k); [|reflexivity].
+  destruct (dict_get d k) as [c|] eqn:E.
+  - rewrite E. reflexivity.
+  - rewrite dict_get_set_same. reflexivity.
+Qed.
+
+(* but the class is observable: a later read of a missing key *)
+Theorem defaultdict_refuted_missing_key : forall lk d k, dict_get d k = None ->
+  fst (mapping_read (PlainDict d) k) = None /\ fst (mapping_read (DefaultDict lk d) k) = Some (dd_empty lk).
+Proof. intros lk d k H. unfold mapping_read. cbn. rewrite H. split; reflexivity. Qed.
+
+Theorem defaultdict_refuted_class : forall lk d, PlainDict d <> DefaultDict lk d.
+Proof. intros lk d H. discriminate H. Qed.
